@@ -21,7 +21,7 @@ use vkit::fault::{self, Fuse};
 use vkit::ledger;
 use vkit::script::{Hint, ScriptIter};
 use vkit::typenum::U;
-use vkit::{catch, Args, Caught, Elem, HeapTok, Stats, Tok, Tok24, ZTok};
+use vkit::{catch, Args, Caught, Elem, HeapTok, Stats, Tok, Tok24, TokX, ZTok};
 
 type GA<E, N> = GenericArray<E, N>;
 
@@ -611,8 +611,41 @@ fn c04_all<E: Elem + Clone + Default, N: ArrayLength>(cx: &mut Ctx) {
 /// Large N, sampled fault indices (k in {0, 1, N/2, N-1, N}).
 fn c04_large<E: Elem + Clone + Default, N: ArrayLength>(cx: &mut Ctx) {
     let n = N::USIZE;
-    let ks = [0usize, 1, n / 2, n - 1, n];
+    // fault indices on both sides of every block boundary a bulk path could use (8, 16, 32, 64)
+    let mut ks: Vec<usize> = vec![0, 1, 2, 3, 5, 7, 8, 9, 15, 16, 17, 23, 31, 32, 33, 47, 63, 64, 65, n / 2, n.saturating_sub(3), n - 2, n - 1, n];
+    ks.retain(|k| *k <= n);
+    ks.sort();
+    ks.dedup();
     for &k in &ks {
+        c04_case(cx, "default", E::NAME, n, "", k, n, |fa| {
+            if let Some(k) = fa {
+                fault::arm_default(k);
+            }
+            GA::<E, N>::default()
+        });
+        c04_case(cx, "default_boxed", E::NAME, n, "", k, n, |fa| {
+            if let Some(k) = fa {
+                fault::arm_default(k);
+            }
+            GA::<E, N>::default_boxed()
+        });
+        c04_case(cx, "generate.ref", E::NAME, n, "", k, n, |fa| {
+            let mut f = Fuse::new("gen", fa);
+            <&GA<E, N> as GenericSequence<E>>::generate(|_| {
+                f.tick();
+                E::fresh()
+            })
+        });
+        c04_case(cx, "map.ref", E::NAME, n, "", k, n, |fa| {
+            let mut f = Fuse::new("map", fa);
+            let a: GA<E, N> = mk();
+            let out = (&a).map(|x| {
+                let _ = x.key();
+                f.tick();
+                E::fresh()
+            });
+            (out, a)
+        });
         c04_case(cx, "generate.owned", E::NAME, n, "", k, n, |fa| {
             let mut f = Fuse::new("gen", fa);
             GA::<E, N>::generate(|_| {
@@ -1310,6 +1343,18 @@ fn main() {
         if prop == "C04" {
             if args.flavour_on("Tok") {
                 for_lens!(cx, [0, 1, 2, 3, 4, 5, 6, 8], N => c04_all::<Tok, N>(&mut cx));
+                // a different element type of the same size and alignment on the output side
+                // (storage reuse across a same-layout type change)
+                if cx.args.part_on("map") {
+                    for_lens!(cx, [0, 1, 2, 3, 5, 8], N => { c04_map::<Tok, TokX, N>(&mut cx); c04_map::<TokX, Tok, N>(&mut cx) });
+                }
+                if cx.args.part_on("zip") {
+                    for_lens!(cx, [1, 2, 3, 5], N => { c04_zip::<Tok, Tok, TokX, N>(&mut cx); c04_zip::<TokX, u32, Tok, N>(&mut cx) });
+                }
+                // sampled fault indices on long arrays (block boundaries of bulk paths), natively cheap
+                if cx.args.part_on("large") {
+                    for_lens!(cx, [16, 17, 33, 40, 100], N => c04_large::<Tok, N>(&mut cx));
+                }
             }
             if args.flavour_on("ZTok") {
                 for_lens!(cx, [0, 1, 2, 3, 5, 8], N => c04_all::<ZTok, N>(&mut cx));
@@ -1322,7 +1367,7 @@ fn main() {
             }
             if args.thorough() {
                 if args.flavour_on("Tok") {
-                    for_lens!(cx, [16, 17, 33, 100], N => c04_large::<Tok, N>(&mut cx));
+                    for_lens!(cx, [64, 65, 129], N => c04_large::<Tok, N>(&mut cx));
                 }
                 if args.flavour_on("HeapTok") {
                     for_lens!(cx, [16, 17, 33], N => c04_large::<HeapTok, N>(&mut cx));
